@@ -70,15 +70,16 @@ impl PriorityReceiver {
 					*stop_timer = None;
 					Some(timer.to_control())
 				}
-				message = self.urgent.recv() => message,
-				message = self.high.recv() => message,
+				Some(message) = self.urgent.recv() => Some(message),
+				Some(message) = self.high.recv() => Some(message),
 			}
 		} else {
 			select! {
 				biased;
-				message = self.urgent.recv() => message,
-				message = self.high.recv() => message,
-				message = self.normal.recv() => message,
+				Some(message) = self.urgent.recv() => Some(message),
+				Some(message) = self.high.recv() => Some(message),
+				Some(message) = self.normal.recv() => Some(message),
+				else => None,
 			}
 		}
 	}
